@@ -8,11 +8,14 @@ import (
 // Families2 returns the exhaustive families of MiniGo version 2.
 func Families2(thorough bool, rng *rand.Rand) []Family {
 	alias := SliceAliasFamily(3)
+	ms := MapStringFamily()
 	if !thorough {
 		// chains of two operations completely, a seeded sample of the chains of three
 		short := SliceAliasFamily(2)
 		rng.Shuffle(len(alias), func(i, j int) { alias[i], alias[j] = alias[j], alias[i] })
-		alias = append(short, alias[:200]...)
+		alias = append(short, alias[:100]...)
+		rng.Shuffle(len(ms), func(i, j int) { ms[i], ms[j] = ms[j], ms[i] })
+		ms = ms[:200]
 	}
 	return []Family{
 		{"range-family", RangeFamily()},
@@ -23,6 +26,7 @@ func Families2(thorough bool, rng *rand.Rand) []Family {
 		{"goto-family", GotoFamily()},
 		{"panic-family", PanicFamily()},
 		{"call-family", CallFamily()},
+		{"map-string-family", ms},
 	}
 }
 
